@@ -1,14 +1,18 @@
 /-
 C06 — A numeric literal denotes exactly the number written.
-Property theorems only; helper lemmas in `Fpy/Proof/Literal.lean`, the positional value of a
-spelling in `Fpy/Spec/Literal.lean`, the model of the code in `Fpy/Model/Literal.lean`.
+Property theorems only; helper lemmas in `Fpy/Proof/Literal.lean` and `Fpy/Proof/LiteralFront.lean`,
+the positional value of a spelling in `Fpy/Spec/Literal.lean`, the model of the code in
+`Fpy/Model/Literal.lean`.
 
 Vocabulary: a spelling `s : Sci` has a sign, integer digits, optional fraction digits and an
 optional exponent; `s.render pre E` is its text, `s.value base b` the number it denotes
-(`Σ dᵢ·baseⁱ`, scaled by `b^exponent`).  `withinB base s` says that no digit group is longer than
-CPython's `int(str)` limit of 4300 digits (an environment limit that applies to base 10 only).
+(`Σ dᵢ·baseⁱ`, scaled by `b^exponent`).  A float token of Python source `t : PyFloat` has digit
+groups that may carry `_` separators; `t.render E` is its text, `t.value` the number it denotes.
+Limits of the implementation (hypotheses, not part of the property): `withinB base s` /
+`FloatWithin t` — no digit group longer than CPython's `int(str)` limit of 4300 digits, and at most
+6 significant digits in the exponent of a float token.
 -/
-import Fpy.Proof.Literal
+import Fpy.Proof.LiteralFront
 namespace Fpy.Props.C06
 open Fpy Fpy.Lit Fpy.Spec.Lit
 
@@ -42,26 +46,18 @@ theorem decnum_accepts_only (cs : List Char) (v : Rat) (h : decnumCore cs = .ok 
 theorem decnum_strip (cs : List Char) : decnum cs = decnumCore (strip cs) := rfl
 
 theorem decnum_render (s : Sci) (h : s.WF 10) :
-    decnum (s.render [] 'e') = if withinB 10 s then .ok (s.value 10 10) else .error .value := by
-  unfold decnum; rw [strip_render 10 [] (by simp) 'e' s h]; exact decnum_spec s h
+    decnum (s.render [] 'e') = if withinB 10 s then .ok (s.value 10 10) else .error .value :=
+  decnum_of_render s h
 
-/-- **hexadecimal float**: a well-formed spelling *with an integer part* is accepted with its
-positional value (digits in base 16, exponent a power of two) -/
-theorem hexnum_spec (s : Sci) (h : s.WF 16) (hip : s.ip ≠ []) :
+/-- **hexadecimal float**: every well-formed spelling — the form without an integer part, `0x.8`,
+included — is accepted with its positional value (digits in base 16, exponent a power of two) -/
+theorem hexnum_spec (s : Sci) (h : s.WF 16) :
     hexnumCore (s.render ['0', 'x'] 'p') = if withinB 16 s then .ok (s.value 16 2) else .error .value := by
   rw [hexnumCore_render s (wfb_hex h)]
-  exact sciEval_eq 16 2 (by decide) false s h (Or.inr hip)
-
-/-- the form `0x.8` — listed in `_HEXNUM_PATTERN` and matched by it — is refused: the code
-passes the empty integer part to `int('', 16)` (`decnum_to_fraction` substitutes `'0'`, this one does not) -/
-theorem hexnum_dot_form_rejected (s : Sci) (h : s.WF 16) (hip : s.ip = []) :
-    hexnumCore (s.render ['0', 'x'] 'p') = .error .value := by
-  rw [hexnumCore_render s (wfb_hex h)]
-  unfold sciEval sciToFraction
-  simp [hip, pyInt, bind, Except.bind]
+  exact sciEval_eq 16 2 (by decide) true s h (Or.inl rfl)
 
 theorem hexnum_accepts_only (cs : List Char) (v : Rat) (h : hexnumCore cs = .ok v) :
-    ∃ s : Sci, s.WF 16 ∧ s.ip ≠ [] ∧ withinB 16 s = true ∧ cs = s.render ['0', 'x'] 'p' ∧ v = s.value 16 2 := by
+    ∃ s : Sci, s.WF 16 ∧ withinB 16 s = true ∧ cs = s.render ['0', 'x'] 'p' ∧ v = s.value 16 2 := by
   unfold hexnumCore at h
   cases hm : matchHex cs with
   | none => simp [hm] at h
@@ -69,17 +65,15 @@ theorem hexnum_accepts_only (cs : List Char) (v : Rat) (h : hexnumCore cs = .ok 
     obtain ⟨s, hw, hcs, _⟩ := matchHex_inv cs g hm
     have hwf := wf_of_wfb_hex hw
     have h2 : hexnumCore cs = .ok v := by unfold hexnumCore; exact h
-    by_cases hip : s.ip = []
-    · rw [hcs, hexnum_dot_form_rejected s hwf hip] at h2; cases h2
-    · rw [hcs, hexnum_spec s hwf hip] at h2
-      by_cases hb : withinB 16 s = true
-      · simp only [hb, ↓reduceIte, Except.ok.injEq] at h2
-        exact ⟨s, hwf, hip, hb, hcs, h2.symm⟩
-      · simp [hb] at h2
+    rw [hcs, hexnum_spec s hwf] at h2
+    by_cases hb : withinB 16 s = true
+    · simp only [hb, ↓reduceIte, Except.ok.injEq] at h2
+      exact ⟨s, hwf, hb, hcs, h2.symm⟩
+    · simp [hb] at h2
 
-theorem hexnum_render (s : Sci) (h : s.WF 16) (hip : s.ip ≠ []) :
+theorem hexnum_render (s : Sci) (h : s.WF 16) :
     hexnum (s.render ['0', 'x'] 'p') = if withinB 16 s then .ok (s.value 16 2) else .error .value := by
-  unfold hexnum; rw [strip_render 16 ['0', 'x'] (by decide) 'p' s h]; exact hexnum_spec s h hip
+  unfold hexnum; rw [strip_render 16 ['0', 'x'] (by decide) 'p' s h]; exact hexnum_spec s h
 
 /-- **digits(m, e, b)** is `m · b^e`; the only refusal is `0` to a negative power -/
 theorem digits_spec (m e b : Int) :
@@ -99,13 +93,24 @@ theorem rational_spec (p q : Int) :
   unfold rationalToFraction rationalValue
   by_cases h : q = 0 <;> simp [h]
 
-/-- an **integer token** (plain decimal digits as Python accepts them) is kept as that integer -/
-theorem integer_spec (ds : List Char) (hne : ds ≠ []) (hd : ∀ c ∈ ds, IsDigit 10 c)
-    (hlz : ¬ (ds.head? = some '0' ∧ ∃ c ∈ ds, c ≠ '0')) (hlim : ds.length ≤ maxStrDigits) :
-    frontValue (.num ds) = .ok (.rat (intVal 10 ds)) := by
+/-! ## Literals in source denote exactly the number written -/
+
+/-- an **integer token** (decimal digits with optional `_` separators, as Python accepts them) is
+that integer, however long -/
+theorem integer_spec (g : Group) (hne : g ≠ []) (hg : g.WF)
+    (hlz : ¬ (g.digits.head? = some '0' ∧ ∃ c ∈ g.digits, c ≠ '0')) (hlim : g.digits.length ≤ maxStrDigits) :
+    frontValue (.num g.render) = .ok (.rat (intVal 10 g.digits)) := by
   unfold frontValue parseExpr
-  simp only [pyNumber_decint ds hne hd hlz hlim, bind, Except.bind, parseConstant]
+  simp only [pyNumber_decint g hne hg hlz hlim, bind, Except.bind, parseConstant]
   rfl
+
+/-- **`literal_exact`**: a **decimal float token** — any digit count, with or without a point, an
+exponent (`e` or `E`, signed or not), `_` separators, leading and trailing zeros, values far outside
+the binary64 range — evaluates under the real context to exactly the positional value of its
+spelling.  Nothing depends on how Python's own float parser would have rounded it. -/
+theorem literal_exact (E : Char) (hE : E = 'e' ∨ E = 'E') (t : PyFloat) (h : t.WF) (hl : FloatWithin t) :
+    frontValue (.num (t.render E)) = .ok (.rat t.value) :=
+  frontValue_float E hE t h hl
 
 /-! ## Signed zero -/
 
@@ -118,23 +123,38 @@ theorem decnum_as_real (s : Sci) (h : s.WF 10) (hw : withinB 10 s = true) :
   simp only [decnum_render s h, hw, ↓reduceIte, bind, Except.bind, pure, Except.pure,
     lstrip_render_head 10 [] (by simp) 'e' s h, Sci.isNegZero, Bool.and_comm]
 
-theorem hexnum_as_real (s : Sci) (h : s.WF 16) (hip : s.ip ≠ []) (hw : withinB 16 s = true) :
+theorem hexnum_as_real (s : Sci) (h : s.WF 16) (hw : withinB 16 s = true) :
     (Node.hexnum (s.render ['0', 'x'] 'p')).asReal =
       .ok (if s.isNegZero 16 2 then .negZero else .rat (s.value 16 2)) := by
   unfold Node.asReal Node.asRational
-  simp only [hexnum_render s h hip, hw, ↓reduceIte, bind, Except.bind, pure, Except.pure,
+  simp only [hexnum_render s h, hw, ↓reduceIte, bind, Except.bind, pure, Except.pure,
     lstrip_render_head 16 ['0', 'x'] (by decide) 'p' s h, Sci.isNegZero, Bool.and_comm]
 
-/-- **negated-zero fold**: `-x` for any literal `x` whose value is zero (whatever its form) is
-replaced by the literal `-0.0`, which evaluates to the negative zero -/
-theorem neg_zero_fold (n : Node) (hr : n.isRationalVal = true) (h0 : n.asRational = .ok 0) :
-    negFold n = .ok (.decnum negZeroText) ∧ (Node.decnum negZeroText).evalReal = .ok .negZero := by
-  constructor
-  · unfold negFold; simp [hr, h0, bind, Except.bind, pure, Except.pure]
-  · have : ((Node.decnum negZeroText).evalReal).toOption = some .negZero := by decide +kernel
+/-- the zero of the opposite sign -/
+def flipZero : LitVal → LitVal
+  | .negZero => .rat 0
+  | .rat _ => .negZero
+
+/-- **negated-zero fold**: `-x` for a literal `x` whose value is zero (whatever its form and
+whatever its sign) evaluates to the zero of the opposite sign: `-0.0`, `-0` are the negative zero,
+`-(-0.0)` is the positive zero again -/
+theorem neg_zero_fold (n : Node) (hr : n.isRationalVal = true) (h0 : n.asRational = .ok 0)
+    (v : LitVal) (hv : n.asReal = .ok v) :
+    ∃ m, negFold n = .ok m ∧ m.evalReal = .ok (flipZero v) := by
+  have hnz : (Node.decnum negZeroText).evalReal = .ok .negZero := by
+    have : ((Node.decnum negZeroText).evalReal).toOption = some .negZero := by decide +kernel
     cases he : (Node.decnum negZeroText).evalReal with
     | error e => simp [he, Except.toOption] at this
     | ok v => simp [he, Except.toOption] at this; rw [this]
+  cases v with
+  | negZero =>
+    refine ⟨.integer 0, ?_, ?_⟩
+    · unfold negFold; simp [hr, h0, hv, bind, Except.bind, pure, Except.pure]
+    · simp [Node.evalReal, Node.asReal, Node.asRational, Except.map, flipZero]
+  | rat r =>
+    refine ⟨.decnum negZeroText, ?_, ?_⟩
+    · unfold negFold; simp [hr, h0, hv, bind, Except.bind, pure, Except.pure]
+    · simpa [flipZero] using hnz
 
 /-- negating a non-zero literal negates its value exactly (an `Integer` is folded, anything else
 becomes a `Neg` operation, which is exact under the real context) -/
@@ -166,19 +186,16 @@ theorem neg_fold_value (n : Node) (hr : n.isRationalVal = true) (r : Rat) (h : n
     · unfold negFold; simp [Node.isRationalVal, h, hb, bind, Except.bind, pure, Except.pure]
     · simp [Node.evalReal, hv, bind, Except.bind, pure, Except.pure, hb]
 
-/-- the fold is applied to *every* zero-valued operand, an already negative zero included: the
-literal expression `-(-0.0)` — which denotes `+0` — evaluates to the negative zero.
-(Counterexample to "a negated zero evaluates to the signed zero its spelling denotes".) -/
-theorem neg_zero_fold_counterexample :
-    (frontValue (.neg (.neg (.num ['0', '.', '0'])))).toOption = some .negZero ∧
-    (frontValue (.neg (.hexfloat ['-', '0', 'x', '0']))).toOption = some .negZero := by
-  decide +kernel
-
-/-- … and a negated zero is not an `Integer` any more, so `rational(-0, 3)` is a parse error -/
-theorem neg_zero_argument_counterexample :
-    (parseExpr (.rational (.neg (.num ['0'])) (.num ['3']))).toOption = none ∧
-    (parseExpr (.rational (.num ['0']) (.num ['3']))).toOption = some (.rational 0 3) := by
-  decide +kernel
+/-- a zero of either sign is still the integer `0` where an integer argument is wanted
+(`rational(-0, 3)`, `digits(5, -0, 2)`) -/
+theorem integer_argument_zero :
+    asInteger (.integer 0) = .ok 0 ∧ asInteger (.decnum negZeroText) = .ok 0 := by
+  constructor
+  · rfl
+  · have : (asInteger (.decnum negZeroText)).toOption = some 0 := by decide +kernel
+    cases he : asInteger (.decnum negZeroText) with
+    | error e => simp [he, Except.toOption] at this
+    | ok v => simp [he, Except.toOption] at this; rw [this]
 
 /-! ## Rounded once -/
 
@@ -194,68 +211,6 @@ theorem literal_once_decimal (C : Ctx) (s : Sci) (h : s.WF 10) (hw : withinB 10 
     roundLit C (.decnum (s.render [] 'e')) = .res (C.round (.frac (s.value 10 10).num (s.value 10 10).den)) := by
   rw [literal_once C _ _ (decnum_as_real s h hw)]; simp [hz, LitVal.operand]
 
-/-! ## Decimal literals in *source*: the trip through Python's `float` (candidate F5)
-
-`Parser._parse_constant` receives the `ast.Constant` Python built, i.e. a binary64 number, and
-turns it into `Integer(int(x))` when `x` is integral and into `Decnum(str(x))` otherwise.
-So the value of a decimal literal is that of the double nearest to the spelling (when integral)
-or of the shortest decimal that reads back as that double — not the spelling's. -/
-
-/-- what the front end makes of a float token, stated outright -/
-theorem float_token_path (cs : List Char) (x : RF) (h : pyNumber cs = .ok (.float (.fin x))) :
-    parseExpr (.num cs) =
-      .ok (match x.toInt? with
-           | some i => .integer i
-           | none => .decnum (reprFloat (.fin x))) := by
-  unfold parseExpr
-  simp only [h, bind, Except.bind, parseConstant]
-  cases x.toInt? <;> rfl
-
-/-- **Counterexamples**: spellings whose front-end value differs from the number written
-(each line: the value obtained; it is not the value of the spelling). -/
-theorem literal_counterexample :
-    -- 0.1234567890123456789  ↦  0.12345678901234568
-    ((frontValue (.num "0.1234567890123456789".toList)).toOption
-        = some (.rat (1543209862654321 / 12500000000000000)) ∧
-      (⟨.none, ['0'], some "1234567890123456789".toList, none⟩ : Sci).value 10 10
-        ≠ 1543209862654321 / 12500000000000000) ∧
-    -- 1e23  ↦  99999999999999991611392
-    ((frontValue (.num "1e23".toList)).toOption = some (.rat 99999999999999991611392) ∧
-      (⟨.none, ['1'], none, some (.none, ['2', '3'])⟩ : Sci).value 10 10 ≠ 99999999999999991611392) ∧
-    -- 9007199254740993.0  ↦  9007199254740992
-    ((frontValue (.num "9007199254740993.0".toList)).toOption = some (.rat 9007199254740992) ∧
-      (⟨.none, "9007199254740993".toList, some ['0'], none⟩ : Sci).value 10 10 ≠ 9007199254740992) ∧
-    -- a spelling that *is* a binary64 number is still changed: 0.1000000000000000055511151231257827021181583404541015625 ↦ 0.1
-    ((frontValue (.num "0.1000000000000000055511151231257827021181583404541015625".toList)).toOption = some (.rat (1 / 10)) ∧
-      (⟨.none, ['0'], some "1000000000000000055511151231257827021181583404541015625".toList, none⟩ : Sci).value 10 10 ≠ 1 / 10) ∧
-    -- beyond the binary64 range: 1e999 is an error, 1e-400 is zero, -1e-400 is the negative zero
-    ((frontValue (.num "1e999".toList)).toOption = none ∧
-      (frontValue (.num "1e-400".toList)).toOption = some (.rat 0) ∧
-      (frontValue (.neg (.num "1e-400".toList))).toOption = some .negZero) := by
-  decide +kernel
-
-/-- **Partial result**: a float token evaluates exactly in two situations, which together are
-all there is —
-* the nearest double is integral and equals the spelling's value `r`, or
-* the nearest double is not integral and the shortest decimal that reads back as it has value `r`.
-What is *not* proved is a syntactic sufficient condition (e.g. "at most 15 significant digits
-and inside the normal range"): that needs the error analysis of binary64 rounding and of the
-shortest-digits search, which is not formalised here.  The hypotheses are decidable on any
-concrete spelling (see the examples below). -/
-theorem literal_exact_partial (cs : List Char) (x : RF) (r : Rat)
-    (h : pyNumber cs = .ok (.float (.fin x)))
-    (hx : (∃ i : Int, x.toInt? = some i ∧ (i : Rat) = r) ∨
-          (x.toInt? = none ∧ (Node.decnum (reprFloat (.fin x))).asReal = .ok (.rat r))) :
-    frontValue (.num cs) = .ok (.rat r) := by
-  unfold frontValue
-  rw [float_token_path cs x h]
-  cases hx with
-  | inl hi =>
-    obtain ⟨i, hi, hr⟩ := hi
-    simp only [hi, bind, Except.bind, Node.evalReal, Node.asReal, Node.asRational, Except.map, hr]
-  | inr hn =>
-    simp only [hn.1, bind, Except.bind, Node.evalReal, hn.2]
-
 /-! ## Non-vacuity: concrete spellings, evaluated by the kernel -/
 
 -- a well-formed spelling, its text and its value
@@ -263,25 +218,36 @@ example : (⟨.minus, ['1', '2'], some ['5', '0'], some (.minus, ['0', '3'])⟩ 
     (⟨.minus, ['1', '2'], some ['5', '0'], some (.minus, ['0', '3'])⟩ : Sci).value 10 10 = -1 / 80 := by decide +kernel
 example : (decnum " -12.50e-03\n".toList).toOption = some (-1 / 80) := by decide +kernel
 example : (hexnum "0x1.8p3".toList).toOption = some 12 ∧ (hexnum "-0xa.8p-1".toList).toOption = some (-21 / 4) := by decide +kernel
-example : (hexnum "0x.8".toList).toOption = none ∧ (decnum ".5".toList).toOption = some (1 / 2) := by decide +kernel
+example : (hexnum "0x.8".toList).toOption = some (1 / 2) ∧ (decnum ".5".toList).toOption = some (1 / 2) := by decide +kernel
 example : (digitsToFraction 3 (-2) 10).toOption = some (3 / 100) ∧ (digitsToFraction 1 (-1) 0).toOption = none ∧
     (rationalToFraction 1 (-3)).toOption = some (-1 / 3) := by decide +kernel
+-- a float token with separators: `1_0.0_1E0_1`
+example : (⟨[(false, '1'), (true, '0')], true, [(false, '0'), (true, '1')], some (.none, [(false, '0'), (true, '1')])⟩ : PyFloat).render 'E'
+      = "1_0.0_1E0_1".toList ∧
+    (⟨[(false, '1'), (true, '0')], true, [(false, '0'), (true, '1')], some (.none, [(false, '0'), (true, '1')])⟩ : PyFloat).value = 1001 / 10 := by
+  decide +kernel
+-- the spellings that Python's float would have changed
+example : (frontValue (.num "0.1234567890123456789".toList)).toOption = some (.rat (1234567890123456789 / 10000000000000000000)) ∧
+    (frontValue (.num "1e23".toList)).toOption = some (.rat 100000000000000000000000) ∧
+    (frontValue (.num "9007199254740993.0".toList)).toOption = some (.rat 9007199254740993) ∧
+    (frontValue (.num "1e-400".toList)).toOption = some (.rat (1 / (10 : Rat) ^ 400)) ∧
+    (frontValue (.num "1e999".toList)).toOption = some (.rat ((10 : Rat) ^ 999)) ∧
+    (frontValue (.num "1_0.0_1E0_1".toList)).toOption = some (.rat (1001 / 10)) ∧
+    (frontValue (.num "1.".toList)).toOption = some (.rat 1) ∧ (frontValue (.num ".5".toList)).toOption = some (.rat (1 / 2)) := by
+  decide +kernel
+example : (frontValue (.num "123456789012345678901234567890".toList)).toOption =
+    some (.rat 123456789012345678901234567890) := by decide +kernel
 -- signed zeros
 example : ((Node.decnum "-0.0".toList).asReal).toOption = some .negZero ∧
     ((Node.hexnum "-0x0p0".toList).asReal).toOption = some .negZero ∧
     (frontValue (.neg (.num ['0']))).toOption = some .negZero ∧
     (frontValue (.neg (.num "0.0".toList))).toOption = some .negZero ∧
-    (frontValue (.pos (.num "0.0".toList))).toOption = some (.rat 0) := by decide +kernel
--- the hypotheses of `literal_exact_partial` hold for everyday literals …
-example : (frontValue (.num "0.1".toList)).toOption = some (.rat (1 / 10)) ∧
-    (frontValue (.num "3.14".toList)).toOption = some (.rat (157 / 50)) ∧
-    (frontValue (.num "1e-6".toList)).toOption = some (.rat (1 / 1000000)) ∧
-    (frontValue (.num "2.5e-3".toList)).toOption = some (.rat (1 / 400)) ∧
-    (frontValue (.num "1e22".toList)).toOption = some (.rat 10000000000000000000000) ∧
-    (frontValue (.num "1_0.0_1E0_1".toList)).toOption = some (.rat (1001 / 10)) := by decide +kernel
--- … and an integer token is exact however long
-example : (frontValue (.num "123456789012345678901234567890".toList)).toOption =
-    some (.rat 123456789012345678901234567890) := by decide +kernel
+    (frontValue (.pos (.num "0.0".toList))).toOption = some (.rat 0) ∧
+    (frontValue (.neg (.neg (.num "0.0".toList)))).toOption = some (.rat 0) ∧
+    (frontValue (.neg (.hexfloat "-0x0".toList))).toOption = some (.rat 0) ∧
+    (frontValue (.neg (.neg (.neg (.num ['0']))))).toOption = some .negZero := by decide +kernel
+example : (frontValue (.rational (.neg (.num ['0'])) (.num ['3']))).toOption = some (.rat 0) ∧
+    (frontValue (.digits (.num ['5']) (.neg (.num ['0'])) (.num ['2']))).toOption = some (.rat 5) := by decide +kernel
 -- rounded once
 example : (match roundLit (.mp 3 .rne (some 0) {}) (.decnum "0.1".toList) with
     | .res (.ok r) => some r.v | _ => none) = some (.fin ⟨false, -6, 6⟩) := by decide +kernel
